@@ -26,6 +26,9 @@ enum Rec {
     Single(u8, Vec<u8>, Kind),
     Batch(Vec<(u8, Vec<u8>, Kind)>),
     Clear(u8),
+    /// not a journal record: the keyspace's memtable is flushed to a table before the image is taken, so recovery
+    /// meets a journal whose records are partly covered by tables
+    Flush(u8),
 }
 
 fn pattern(len: usize, content: u8) -> Vec<u8> {
@@ -85,6 +88,7 @@ fn apply_model(m: &mut Content, r: &Rec) {
             }
         }
         Rec::Clear(ks) => m.get_mut(ksn(*ks)).unwrap().clear(),
+        Rec::Flush(_) => {}
     }
 }
 
@@ -125,6 +129,11 @@ fn write_history(recs: &[Rec], lz4: bool) -> Result<(std::path::PathBuf, Vec<Con
                 b.commit().map_err(|e| format!("commit: {e:?}"))?;
             }
             Rec::Clear(ks) => hs[*ks as usize].clear().map_err(|e| format!("clear: {e:?}"))?,
+            Rec::Flush(ks) => {
+                hs[*ks as usize].rotate_memtable().map_err(|e| format!("rotate: {e:?}"))?;
+                let idx = db.verif_pending().iter().position(|m| m.contains("Flush")).ok_or("no flush queued")?;
+                db.verif_step(idx).map_err(|e| format!("flush: {e:?}"))?;
+            }
         }
         apply_model(&mut m, r);
         states.push(m.clone());
@@ -186,6 +195,7 @@ fn show_rec(r: &Rec) -> String {
         Rec::Single(ks, k, kind) => format!("single {}", it(ks, k, kind)),
         Rec::Batch(items) => format!("batch [{}]", items.iter().map(|(a, b, c)| it(a, b, c)).collect::<Vec<_>>().join(" ")),
         Rec::Clear(ks) => format!("clear {}", ksn(*ks)),
+        Rec::Flush(ks) => format!("flush {}", ksn(*ks)),
     }
 }
 
@@ -230,6 +240,16 @@ fn roundtrip_cases() -> Vec<(String, Vec<Rec>)> {
                     Rec::Batch(vec![(0, key_of(kl, 1), kind.clone()), (1, key_of(kl, 2), Kind::Value(vec![]))]),
                 ],
             ));
+        }
+    }
+    // batches whose keyspaces are flushed to different degrees before recovery reads the journal
+    for (kl, vl) in [(1usize, 1usize), (2, 4096), (255, 70000)] {
+        let val = pattern(vl, 1);
+        let batch = Rec::Batch(vec![(0, key_of(kl, 1), Kind::Value(val.clone())), (1, key_of(kl, 2), Kind::Value(val.clone())), (0, key_of(kl, 3), Kind::Value(vec![])), (1, key_of(kl, 4), Kind::Tomb)]);
+        let pre = Rec::Single(1, key_of(kl, 4), Kind::Value(b"old".to_vec()));
+        for f in 0..2u8 {
+            v.push((format!("batch4-2ks k{kl} v{vl}, {} flushed before recovery", ksn(f)), vec![pre.clone(), batch.clone(), Rec::Flush(f)]));
+            v.push((format!("batch4-2ks k{kl} v{vl}, {} flushed, then a second batch", ksn(f)), vec![pre.clone(), batch.clone(), Rec::Flush(f), Rec::Batch(vec![(1 - f, key_of(kl, 5), Kind::Value(val.clone())), (f, key_of(kl, 1), Kind::Tomb)])]));
         }
     }
     v.push(("clear".into(), vec![Rec::Single(0, key_of(2, 1), Kind::Value(b"1".to_vec())), Rec::Single(1, key_of(2, 1), Kind::Value(b"1".to_vec())), Rec::Clear(0), Rec::Single(0, key_of(2, 2), Kind::Value(pattern(5000, 1)))]));
